@@ -46,6 +46,8 @@ MCNext ==
           \/ \E f \in CrashChoices : CrashTo(f)
           \/ Reopen
           \/ Close
+          \/ \E v \in VaaUniverse, a \in BOOLEAN :
+                (v.id \in DOMAIN written \/ Cardinality(DOMAIN written) < MaxIds) /\ StoreWhileClosed(v, a)
           \/ \E i \in DOMAIN written : Get(i)
 
 MCSpec == Init /\ [][MCNext]_vars
